@@ -28,6 +28,37 @@ def kf_c04_1(piece, again):
     return piece.endswith('#') and sqlparse.split(piece + ' ') == [piece]
 
 
+def piece_starts(text, pieces):
+    out = []
+    j = 0
+    for p in pieces:
+        while j < len(text) and text[j].isspace():
+            j += 1
+        if not text.startswith(p, j):
+            return None
+        out.append(j)
+        j += len(p)
+    return out
+
+
+def kf_c04_2(text, j, piece):
+    """KF-C04-2: the piece starts directly (no whitespace) after the
+    previous statement's last character -- possible after a 'GO n' batch
+    separator -- and its first token's rule has a look-behind, so the piece
+    lexes differently without that character."""
+    if j == 0 or text[j - 1].isspace():
+        return False
+    alone = list(sqlparse.lexer.tokenize(piece))
+    ctxt = list(sqlparse.lexer.tokenize(text[j - 1:j + len(piece)]))
+    # drop the context character's own token(s)
+    k = 0
+    n = 0
+    while k < len(ctxt) and n < 1:
+        n += len(ctxt[k][1])
+        k += 1
+    return n == 1 and ctxt[k:] != alone
+
+
 def check_text(ctx, kind, text):
     rec = ctx.rec
     rec.case()
@@ -53,18 +84,22 @@ def check_text(ctx, kind, text):
                       % (len(pieces), [p[:30] for p in pieces[:4]],
                          len(want), [p[:30] for p in want[:4]]),
                       key='n' if len(pieces) != len(want) else 'text')
-    for p in pieces[:8]:
+    positions = piece_starts(text, pieces)
+    for k, p in enumerate(pieces[:8]):
         rec.monitor('resplit')
         try:
             again = sqlparse.split(p)
         except Exception:
             continue
         if again != [p]:
-            fid = ctx.findings.attr('KF-C04-1') if kf_c04_1(p, again) \
-                else None
+            fid = None
+            if kf_c04_1(p, again):
+                fid = ctx.findings.attr('KF-C04-1')
+            elif positions and kf_c04_2(text, positions[k], p):
+                fid = ctx.findings.attr('KF-C04-2')
             rec.violation('resplit', case,
                           'split(%r) = %r' % (p[:60], [a[:40] for a in
-                                                       again[:4]]),
+                                                       again[:3]]),
                           key=len(again), finding=fid)
     if len(pieces) >= 2:
         rec.nontrivial((len(pieces),
